@@ -264,8 +264,17 @@ def variance(chk, prog, En):
                 ex.stmt(s, [], {}, {})
             if s.get('kind') == 'ForStmt' and any(m.get('kind') in ('CompoundAssignOperator', 'BinaryOperator') and
                                                   f.unit.text(kids(m)[0]).strip() == ssn for m in walk(s) if kids(m)):
-                ex.stmt(s, [], {}, {})
-                seen_loop = s
+                tgt = s
+                if any(m.get('kind') in ('WhileStmt', 'DoStmt') for m in walk(s)):
+                    # the accumulation sits inside the loop over the components: take the innermost loop nest that contains it and no iteration
+                    best = None
+                    for lp in walk(s):
+                        if lp.get('kind') == 'ForStmt' and lp is not s and not any(m.get('kind') in ('WhileStmt', 'DoStmt') for m in walk(lp)) and \
+                                any(m.get('kind') == 'CompoundAssignOperator' and f.unit.text(kids(m)[0]).strip() == ssn for m in walk(lp)):
+                            best = best or lp
+                    tgt = best or s
+                ex.stmt(tgt, [], {}, {})
+                seen_loop = s if tgt is s else tgt
     except Unsupported as e:
         chk.broke('PCA: the accumulation of %s is not understood: %s' % (ssn, e))
         return
@@ -287,7 +296,8 @@ def variance(chk, prog, En):
     pos = {id(s): i for i, s in enumerate(top)}
     comp = [s for s in top if s.get('kind') == 'ForStmt' and any(m.get('kind') in ('WhileStmt',) for m in walk(s))]
     pre = [n for n in walk(f.body) if n.get('kind') == 'CallExpr' and callee_name(n) == 'MatrixPreprocess']
-    order_ok = comp and pos[id(seen_loop)] < pos[id(comp[0])] and pre and any(pre[0] is m for s in top[:pos[id(seen_loop)]] for m in walk(s))
+    order_ok = bool(comp) and id(seen_loop) in pos and pos[id(seen_loop)] < pos[id(comp[0])] and bool(pre) and \
+        any(pre[0] is m for s in top[:pos[id(seen_loop)]] for m in walk(s))
     if ok and order_ok:
         chk.instance(R, '%s PCA: %s = sum_ij %s[i][j]^2 over every cell, after the preprocessing and before the first component' % (f.unit.where(seen_loop), ssn, En))
     else:
